@@ -12,6 +12,7 @@ import contextlib
 import io
 import itertools
 import math
+import random
 from fractions import Fraction
 
 from common import frac_str
@@ -203,6 +204,20 @@ class Impl:
         quiet(self.sa.refine)
         return list(self.sa.rec_refined), list(self.sa.rec_rebalance)
 
+    def manual_refine(self, positions):
+        """one refinement step through the public per-object API: the chosen intervals are refined in the GIVEN order
+        (`do_refinement(obj, position)`), then `refinement_postprocessing()`"""
+        self.sa.rec_refined = []
+        self.sa.rec_rebalance = []
+
+        def go():
+            self.sa.refinement.clear_new_objects()
+            for pos in positions:
+                self.sa.do_refinement(self.sa.refinement.get_object(tuple(pos)), tuple(pos))
+            self.sa.refinement_postprocessing()
+        quiet(go)
+        return list(self.sa.rec_refined), list(self.sa.rec_rebalance)
+
     def call(self, pts):
         np = classes()["np"]
         r = quiet(self.sa, [tuple(float(x) for x in p) for p in pts])
@@ -298,6 +313,11 @@ def gen_config(ctx, thorough, want_c03, family=None):
     # getters / derived values (component grids, __call__) are observed at randomly chosen steps and always at the end,
     # pure attribute reads after every step
     cfg["observe"] = [r.random() < 0.45 for _ in range(steps)]
+    # "manual" steps: the selected subset is applied through do_refinement in a seeded random order + postprocessing;
+    # "recall" steps: the getters / __call__ are observed again right after refine(), without an evaluation in between
+    cfg["manual"] = [r.random() < 0.35 for _ in range(steps)]
+    cfg["recall"] = [r.random() < 0.5 for _ in range(steps)]
+    cfg["perm_seed"] = r.randint(0, 10 ** 6)
     if family == "deepen":
         # small directed histories: rotations and raises of lmax by more than one level in the same step
         cfg.update(dim=2, lmin=1, lmax=r.choice([2, 2, 3]), a=["0", str(cfg["a"][1])], b=["1", str(cfg["b"][1])],
@@ -305,6 +325,8 @@ def gen_config(ctx, thorough, want_c03, family=None):
                    family="deepen", deepen_dim=r.randrange(2), deepen_side=r.randrange(2))
         cfg["a"] = cfg["a"][:2]; cfg["b"] = cfg["b"][:2]
         cfg["observe"] = [r.random() < 0.3 for _ in range(cfg["steps"])]
+        cfg["manual"] = [r.random() < 0.25 for _ in range(cfg["steps"])]
+        cfg["recall"] = [False] * cfg["steps"]
     return cfg
 
 
@@ -580,10 +602,21 @@ class History:
                 self.points_checks(impl, "@before-refine-%d" % k)
                 if self.violated:
                     break
+            observed_here = self.check_points and observe[k]
+            manual = bool((list(cfg.get("manual", [])) + [False] * (k + 1))[k]) and len(sel) >= 1
             try:
-                refined, rebal_calls = impl.refine()
+                if manual:
+                    order = list(sel)
+                    random.Random(cfg.get("perm_seed", 0) + k).shuffle(order)
+                    ctx.count("manual_steps")
+                    if order != sorted(order):
+                        ctx.count("manual_steps_non_ascending")
+                    refined, rebal_calls = impl.manual_refine(order)
+                else:
+                    refined, rebal_calls = impl.refine()
             except Exception as e:
-                self.viol("refine-exception", {"exception": repr(e)[:300], "step": k}, {"exception": type(e).__name__})
+                self.viol("refine-exception", {"exception": repr(e)[:300], "step": k, "manual": manual},
+                          {"exception": type(e).__name__})
                 break
             self.nontrivial = self.nontrivial or len(refined) > 0
             ctx.count("refined_per_step_%s" % ("0" if not refined else "1" if len(refined) == 1 else "2-5" if len(refined) <= 5 else "6+"))
@@ -594,10 +627,16 @@ class History:
                 ctx.count("rebalance_interval_calls", len(rebal_calls))
             # ---- model step (skipped once model and implementation are out of step)
             if self.model_on:
-                self.model_step(impl, bens, refined, k)
+                self.model_step(impl, bens, sorted(refined) if manual else refined, k)
             self.oracle_state(impl)
             if self.violated:
                 break
+            if observed_here and bool((list(cfg.get("recall", [])) + [False] * (k + 1))[k]):
+                # call -> refine() -> call on the same object, nothing in between
+                ctx.count("recall_observations")
+                self.points_checks(impl, "@after-refine-%d-without-evaluation" % k)
+                if self.violated:
+                    break
             k += 1
             sizes = [len(impl.containers()[d].get_objects()) for d in range(impl.dim)]
             levels = [[(int(o.levels[0]), int(o.levels[1])) for o in impl.containers()[d].get_objects()] for d in range(impl.dim)]
